@@ -291,7 +291,7 @@ func c12(ctx *core.Ctx) {
 			}
 			break // the container is wedged; later rounds would only repeat the witness
 		}
-		ctx.Eval(1)
+		ctx.Count("rounds", 1)
 		if n := atomic.LoadInt32(&panics); n > 0 {
 			ctx.Violation(ri, "c12:panic:"+rd.Router+":"+rd.Entry, fmt.Sprintf("%d panic(s) while serving during registration changes; first: %v", n, firstPanic.Load()), map[string]interface{}{"round": rd})
 		}
@@ -303,6 +303,7 @@ func c12(ctx *core.Ctx) {
 		ops := hist.ops
 		hist.mu.Unlock()
 		totalOps += len(ops)
+		ctx.Eval(len(ops)) // every recorded client operation is an evaluated case of the history oracle
 		overlap, distinctVals := overlapStats(ops)
 		totalOverlap += overlap
 		res, info := porcupine.CheckOperationsVerbose(regModel, ops, 90*time.Second)
